@@ -43,6 +43,9 @@ def evaluate(seed, run_tests=True):
     try:
         rc, o = sh(['git', 'apply', patch], cwd=wt)
         if rc:
+            rc, o = sh(['git', 'apply', '--3way', patch], cwd=wt)
+            sh(['git', 'reset', '-q'], cwd=wt)
+        if rc:
             out['error'] = 'patch does not apply: ' + o[-300:]
             return out
         env = dict(os.environ, PYTHONDONTWRITEBYTECODE='1', PYTHONPATH=wt)
